@@ -244,6 +244,7 @@ func c09Node(r *simk.Run) *simk.Violation {
 					fsm.Set(n.Dir, clone)
 				} else {
 					var sderr error
+					s.Settle() // background tasks reach their idle state under the scheduler before the teardown runs unscheduled
 					s.FreeRun(func() { sderr = n.Snow.Shutdown(ctx) })
 					if sderr != nil {
 						fail("harness", "shutdown: %v", sderr)
